@@ -34,7 +34,14 @@ func paramRole(fn *ssa.Function, i int) (role string, writable bool) {
 // mode "race": every global write counts. mode "history": only globals that
 // are also read on a path from some root in readers (a value can flow from one
 // call to a later one), plus writes through parameters.
-func (m *Model) RunSharedWrites(s *Sink, rule string, roots []*ssa.Function, mode string) {
+// allowed: package-level variables the roots are specified to set, "pkg.name" -> reason (one named symbol each).
+func (m *Model) RunSharedWrites(s *Sink, rule string, roots []*ssa.Function, mode string, allowed ...map[string]string) {
+	allow := map[string]string{}
+	for _, a := range allowed {
+		for k, v := range a {
+			allow[k] = v
+		}
+	}
 	ea := m.Effects()
 	readOnRender := map[*ssa.Global]string{}
 	if mode == "history" {
@@ -68,7 +75,12 @@ func (m *Model) RunSharedWrites(s *Sink, rule string, roots []*ssa.Function, mod
 				if isSyncPrimitive(w.o.g) && !synced {
 					continue
 				}
-				globals[w.o.g.Pkg.Pkg.Name()+"."+w.o.g.Name()] = append(globals[w.o.g.Pkg.Pkg.Name()+"."+w.o.g.Name()], w)
+				gname := w.o.g.Pkg.Pkg.Name() + "." + canonGlobalName(w.o.g)
+				if why, ok := allow[gname]; ok {
+					s.Note(rule, fmt.Sprintf("%s|sets %s", fnKey(root), gname), w.pos, "specified effect of this entry point: %s", why)
+					continue
+				}
+				globals[gname] = append(globals[gname], w)
 			case oParam:
 				params[w.o.idx] = append(params[w.o.idx], w)
 			}
